@@ -30,6 +30,8 @@ def run(ctx):
     progs, pool = F.c05_sametext(ctx.tier, rnd)
     agg = run_family("C05same", progs, sorted(set(pool) | {"error"}), dev=dev, invariants=INVS, perms=(0,), timeout=900)
     ctx.add_family(agg)
+    agg = run_family("C05multi", F.c05_multiname(ctx.tier, rnd), ["x", "y", "macroname", "error"], dev=dev, invariants=INVS, perms=(0,), timeout=900)
+    ctx.add_family(agg)
     progs, pool = F.c05_siblings(ctx.tier, rnd)
     agg = run_family("C05sib", progs, sorted(set(pool) | {"error"}), dev=dev, invariants=INVS, perms=(0, 1), timeout=900)
     ctx.add_family(agg)
